@@ -795,6 +795,12 @@ def _r6_identity(ctx, repo, A):
     else:
         ctx.ok("C01.R6", "is_running-sticky",
                sample={"early_return_false_on": "self._gone or self._pid_reused"})
+    for q, why in uncached_probes(repo):
+        if why:
+            f_ = repo.func("psutil", q)
+            ctx.fail("C01.R6", f"uncached:{q}", f_.file, f_.node.lineno, f_.qual, why)
+        else:
+            ctx.ok("C01.R6", f"uncached:{q}", nontrivial=False)
     # every way is_running() can answer without comparing identities must make
     # the guard raise by itself
     for f, leaks in guard_cover(repo, A):
@@ -837,6 +843,38 @@ def _r6_identity(ctx, repo, A):
                  f"`{norm_stmt(n.stmt)}` lets two Process objects compare equal without "
                  f"equal identity tuples: is_running() (self == Process(pid)) then misses a "
                  f"recycled PID and the signal/setter guard passes")
+
+
+CACHING_DECORATORS = {"memoize", "memoize_when_activated", "lru_cache", "cache",
+                      "cached_property", "functools.lru_cache", "functools.cache",
+                      "functools.cached_property"}
+
+
+def uncached_probes(repo):
+    """[(qualname, problem or None)]: the liveness / identity probes must be
+    evaluated afresh on every call - no caching decorator, and oneshot() does not
+    activate a cache for them."""
+    out = []
+    one = repo.func("psutil", "Process.oneshot", required=False)
+    activated = set()
+    if one is not None:
+        for c in calls_in(one.node):
+            if isinstance(c.func, ast.Attribute) and c.func.attr == "cache_activate":
+                d = dotted(c.func.value) or ""
+                activated.add(d.split(".")[-1])
+    for q in ("Process.is_running", "Process._raise_if_pid_reused"):
+        f = repo.func("psutil", q)
+        decs = {d.split("(")[0] for d in f.decorators}
+        bad = decs & CACHING_DECORATORS
+        if bad:
+            out.append((q, f"{q.split('.')[-1]}() is decorated with {sorted(bad)}: its answer "
+                           f"is reused (inside oneshot()/as_dict() for the whole block), so a "
+                           f"PID recycled meanwhile still passes the identity guard"))
+        elif q.split(".")[-1] in activated:
+            out.append((q, f"oneshot() activates a cache for {q.split('.')[-1]}()"))
+        else:
+            out.append((q, None))
+    return out
 
 
 def guard_cover(repo, A):
